@@ -114,6 +114,13 @@ static inline Int gen_special(ByteSource& in) {
   return neg ? -v : v;
 }
 
+// value number idx of the nlimbs-limb "palette" domain: limb i is P[digit i of idx in base np] (high zero limbs give the shorter values)
+static const uint64_t PAL6[6] = {0, 1, 0x7fffffffffffffffull, 0x8000000000000000ull, 0xfffffffffffffffeull, 0xffffffffffffffffull};
+static inline Int palette_int(uint64_t idx, int nlimbs, const uint64_t* P = PAL6, unsigned np = 6) {
+  uint64_t l[8]; for (int i = 0; i < nlimbs; i++) { l[i] = P[idx % np]; idx /= np; } return Int::from_limbs(l, (size_t)nlimbs);
+}
+static inline uint64_t palette_count(int nlimbs, unsigned np = 6) { uint64_t c = 1; for (int i = 0; i < nlimbs; i++) c *= np; return c; }
+
 // ---- description helpers ------------------------------------------------------
 static inline std::string show(const Int& a, size_t maxhex = 96) {
   static const bool full = getenv("VERIF_FULLHEX") != nullptr; if (full) maxhex = 1u << 30;
